@@ -8,7 +8,8 @@ PROP = "C06"
 LEVEL = "exploration"
 SHARDS = {"quick": 8, "thorough": 16}
 TIMEOUT = {"quick": 900, "thorough": 7200}
-REQUIRED = {"generate": 40, "rows_decoded": 40, "json_roundtrip": 40, "wasabi": 40, "sequence": 100}
+THOROUGH_MULT = 2   # thorough budgets below are multiplied by this (sized for roughly five minutes on 16 cores)
+REQUIRED = {"generate": 40, "rows_decoded": 40, "json_roundtrip": 40, "wasabi": 40, "sequence": 100, "long_listing": 8}
 ANCHORS = ['paper_wallet:PaperWallet.generate', 'paper_wallet:PaperWallet.json', 'paper_wallet:PaperWallet.wasabi_json', 'paper_wallet:PaperWallet.group', 'paper_wallet:PaperWallet.master_data']
 RULE = ("wallets from random secrets through all constructors x both networks x accounts {0,1,2^31-2,2^31-1,random} x "
         "intervals {(0,0),(0,1),(7,8),(s,s+r),(2^31-3,2^31-1),(2^31-1,2^31)} inside [0,2^31), 0..40 rows; everything recomputed "
@@ -200,6 +201,66 @@ def judge_sequence(ctx, case):
         ctx.extra["rows_checked"] = ctx.extra.get("rows_checked", 0) + 3 * max(0, e - s)
 
 
+LONG_SIZES = (255, 256, 257, 300, 500, 501, 512, 513, 640, 1000, 1001, 1024, 1025, 2048, 2049, 4097)
+
+
+def judge_long_listing(ctx, case):
+    """Listings far longer than any default (sizes around 2^8, 500, 2^9, 1000, 2^10 ...): exactly one row per index, in
+    order - checked on EVERY row (path text, row shape, address = the purpose's encoding of the row's own SEC key, WIF is a
+    well-formed compressed WIF of the right network) - and the full reference derivation on the first/last rows and a
+    random sample (a chunked / streamed / batched implementation shows at its seams)."""
+    try:
+        w, m, mn, pw, tn = build_wallet(case)
+    except Exception as ex:  # noqa
+        return ctx.judge("long_listing", False, case, "wallet", ex, cls="long|raised", mech="C06.long_listing.raised")
+    purpose, acct, s, n = case["purpose_listed"], case["account"], case["start"], case["n"]
+    e = s + n
+    try:
+        if case.get("via") == "generate":
+            blk = w.generate(account=acct, interval=(s, e))["BIP%d" % purpose]
+            keys, rows = blk["account_extended_keys"], blk["groups"]
+        else:
+            keys, rows = getattr(w, "bip%d" % purpose)(account=acct, interval=(s, e))
+        rows = [list(r) for r in rows]
+    except Exception as ex:  # noqa
+        return ctx.judge("long_listing", False, case, "%d rows" % n, ex, cls="long|raised", mech="C06.long_listing.raised")
+    bad = []
+    want_path = "m/%d'/%d'/%d'" % (purpose, 1 if tn else 0, acct)
+    if len(rows) != n:
+        bad.append(("row_count", n, len(rows)))
+    for j, row in enumerate(rows[:n]):
+        if len(row) != 4 or row[0] != "%s/0/%d" % (want_path, s + j):
+            bad.append(("row_path", "%s/0/%d" % (want_path, s + j), row[0] if row else row))
+            break
+        try:
+            sec = bytes.fromhex(row[2])
+            if row[1] != raddr.KINDS[rpaper.ADDR_KIND[purpose]](sec, tn):
+                bad.append(("row_address_vs_sec", j, row[1]))
+                break
+            kind, payload = rb58.classify_check(row[3])
+            if kind != "valid" or len(payload) != 34 or payload[0] != (0xEF if tn else 0x80) or payload[-1] != 1:
+                bad.append(("row_wif_shape", j, row[3]))
+                break
+        except Exception as ex:  # noqa
+            bad.append(("row_malformed", j, ex))
+            break
+    if not bad:
+        acct_node = rb32.derive(m, [purpose + H, (1 if tn else 0) + H, acct + H])
+        chain = rb32.ckd_priv(acct_node, 0)
+        rs = sorted(set([0, 1, 2, n - 1, n - 2, n // 2] + [case["sample_seed"] * (k + 1) * 7919 % n for k in range(8)]))
+        for j in rs:
+            if not 0 <= j < len(rows):
+                continue
+            node = rb32.ckd_priv(chain, s + j)
+            kind, payload = rb58.classify_check(rows[j][3])
+            if rows[j][2] != node.sec().hex() or payload != bytes([0xEF if tn else 0x80]) + rb32.ser256(node.k) + b"\x01":
+                bad.append(("row_key", (s + j, node.sec().hex()), rows[j][2]))
+                break
+    ctx.extra["rows_checked"] = ctx.extra.get("rows_checked", 0) + len(rows)
+    return ctx.judge("long_listing", not bad, case, None, bad[:3], cls="long|n%d|bip%d|%s|%s" % (n, purpose, case.get("via", "bip"), "test" if tn else "main"),
+                     mech="C06.long_listing." + (bad[0][0] if bad else ""))
+
+
 def gen_sequence(rnd, j):
     case = gen_case(rnd, j)
     base = rnd.choice([0, 0, 3, 1000, H - 12])
@@ -266,9 +327,22 @@ def run(ctx):
         judge_wallet(ctx, gen_case(rnd, j + ctx.shard * 7))
     for j in range(ctx.scale(96, 4000)):
         judge_sequence(ctx, gen_sequence(rnd, j + ctx.shard * 3))
+    # long listings: quick = the sizes up to 1025 spread over the shards (two per shard), thorough = all sizes x purposes
+    sizes = [z for z in LONG_SIZES if z <= 1025] if not ctx.thorough else list(LONG_SIZES) * 3
+    for zi, z in enumerate(sizes):
+        if not ctx.mine(zi):
+            continue
+        case = gen_case(rnd, zi)
+        case.update({"purpose_listed": (44, 49, 84)[(zi + ctx.seed) % 3], "n": z, "start": rnd.choice([0, 0, 7, rnd.randrange(0, H - z)]),
+                     "via": "generate" if zi % 4 == 3 else "bip", "sample_seed": rnd.randrange(1, 1 << 20)})
+        case["account"] = rnd.choice([0, 0, 3, H - 1])
+        case.pop("end", None)
+        judge_long_listing(ctx, case)
 
 
 def replay(ctx, monitor, case):
+    if monitor == "long_listing":
+        return judge_long_listing(ctx, case)
     if monitor == "sequence":
         case.pop("step", None)
         case["steps"] = [tuple(x) for x in case["steps"]]
